@@ -1,6 +1,7 @@
 package harness
 
 import (
+	"bytes"
 	"fmt"
 	"io"
 	"strings"
@@ -192,6 +193,57 @@ func c16Gate(r *rng, id string) {
 		id, si, ri, b2i(gateLabels[si] == gateLabels[ri]), len(gateLabels[si]), len(gateLabels[ri]), b2i(skip), b2i(sskip), b2i(enc), path, acted, replied, pan)
 }
 
+// c16Alias: nodes of two logical clusters in one process send in turn through transports that keep
+// the slices they are handed (as the package's own MockTransport does until the receiver has handled
+// them). A packet that has left one node must not be rewritten by a later send of any node: it would
+// reach its receiver carrying another cluster's label and content.
+func c16Alias(r *rng, id string) {
+	labels := []string{"east", "west", "east"}
+	var nodes []*cnode
+	for i, l := range labels {
+		n, err := newCnode(ccfg{label: l, name: fmt.Sprintf("a%d", i), compress: r.chance(1, 2)})
+		if err != nil {
+			for _, x := range nodes {
+				x.m.Shutdown()
+			}
+			return
+		}
+		n.tr.keepRefs = true
+		nodes = append(nodes, n)
+	}
+	defer func() {
+		for _, x := range nodes {
+			x.m.Shutdown()
+		}
+	}()
+	to := &ml.Node{Name: "peer", Addr: []byte{10, 0, 0, 1}, Port: 7946, PMax: 5}
+	plen := 1 + r.intn(40)
+	sends := 0
+	for k := 0; k < 30; k++ {
+		n := nodes[r.intn(len(nodes))]
+		payload := r.bytes(plen)
+		if r.chance(1, 4) {
+			payload = r.bytes(1 + r.intn(60))
+		}
+		n.m.SendBestEffort(to, payload)
+		sends++
+	}
+	rewritten, first := 0, "-"
+	for i, n := range nodes {
+		n.tr.mu.Lock()
+		for j := range n.tr.refs {
+			if j < len(n.tr.sent) && !bytes.Equal(n.tr.refs[j], n.tr.sent[j]) {
+				rewritten++
+				if first == "-" {
+					first = fmt.Sprintf("node%d(%s)packet%d", i, labels[i], j)
+				}
+			}
+		}
+		n.tr.mu.Unlock()
+	}
+	emit("C16 alias id=%s sends=%d rewritten=%d first=%s", id, sends, rewritten, first)
+}
+
 func TestC16(t *testing.T) {
 	n := envInt("VERIF_N", 2000)
 	if thorough() {
@@ -200,4 +252,5 @@ func TestC16(t *testing.T) {
 	forCases(n, 161, "l", func(i int, r *rng, id string) { c16Lbl(r, id) })
 	forCases(2*n, 162, "m", func(i int, r *rng, id string) { c16Rm(r, id) })
 	forCases(n/2, 163, "g", func(i int, r *rng, id string) { c16Gate(r, id) })
+	forCases(n/20+5, 164, "a", func(i int, r *rng, id string) { c16Alias(r, id) })
 }
